@@ -13,6 +13,7 @@ structure Features where
   recovers : Bool      -- `pull` has a deferred recover that forwards the panic as an error
   closesOnReturn : Bool -- `defer close(c.buffer)` in `pull`
   envCancels : Bool    -- the environment may cancel the context at any moment
+  sendsBlock : Bool := true  -- every `c.buffer <- x` in `pull` is a plain (blocking) send
 deriving Repr, DecidableEq
 
 /-- items travelling through the channel -/
@@ -74,6 +75,10 @@ def send (f : Features) (s : St) (x : Item) (after : Nat) : List St :=
   if s.closed then [{ s with crash := true }]
   else if s.buf.length < f.cap then
     let s' := { s with buf := s.buf ++ [x], pull := after }
+    if after == 5 && f.closesOnReturn then [{ s' with closed := true }] else [s']
+  else if !f.sendsBlock then
+    -- `select { case c.buffer <- x: default: }`: a full buffer drops the item
+    let s' := { s with pull := after }
     if after == 5 && f.closesOnReturn then [{ s' with closed := true }] else [s']
   else []
 
